@@ -4,10 +4,9 @@ use crate::row::{project, Snapshot};
 use crate::script::{Conn, Op, Script};
 use clap::Parser;
 use squitterator::verif_seam::{self, World};
-use squitterator::{Args, Plane, Planes};
-use std::collections::HashMap;
+use squitterator::{Args, Planes};
 use std::io;
-use std::sync::{Arc, Mutex, RwLock};
+use std::sync::{Arc, Mutex};
 use std::time::Duration;
 
 pub const T0_US: i64 = simchrono::EPOCH_US;
@@ -93,7 +92,9 @@ struct Trace {
     consumed_ops: usize,
 }
 
-type Table = Arc<RwLock<HashMap<u32, Plane>>>;
+/// Takes a snapshot of the table; a closure so that the harness does not name the map type
+/// (a refactoring of the public table to another map must not break the harness).
+type Table = Arc<dyn Fn() -> Snapshot + Send + Sync>;
 
 struct SimWorld {
     conns: Vec<Conn>,
@@ -135,8 +136,7 @@ fn kind_of(s: &str) -> io::ErrorKind {
 }
 
 pub fn snapshot_of(table: &Table) -> Snapshot {
-    let guard = table.read().unwrap_or_else(|e| e.into_inner());
-    guard.iter().map(|(k, p)| (*k, project(p))).collect()
+    table()
 }
 
 impl SimWorld {
@@ -435,7 +435,11 @@ pub fn run(script: &Script) -> History {
     *PANIC_MSG.lock().unwrap_or_else(|e| e.into_inner()) = None;
 
     let planes = Planes::new();
-    let table = planes.aircrafts.clone();
+    let shared = planes.aircrafts.clone();
+    let table: Table = Arc::new(move || {
+        let guard = shared.read().unwrap_or_else(|e| e.into_inner());
+        guard.iter().map(|(k, p)| (*k, project(p))).collect()
+    });
     let trace = Arc::new(Mutex::new(Trace { steps: vec![], seam: vec![], eof_served: false, consumed_ops: 0 }));
     let total_bytes: usize = script
         .conns
@@ -445,7 +449,8 @@ pub fn run(script: &Script) -> History {
             _ => 0,
         })
         .sum();
-    let budget = 1000 + 8 * script.n_ops() as u64 + 2 * script.conns.len() as u64 + (total_bytes / 512) as u64;
+    // generous enough for a reader that asks for one byte at a time; an endless retry loop still trips it
+    let budget = 10_000 + 16 * script.n_ops() as u64 + 4 * script.conns.len() as u64 + 2 * total_bytes as u64;
     let world = SimWorld {
         conns: script.conns.clone(),
         tcp: script.tcp,
